@@ -1,6 +1,7 @@
 import OrsoVerif.Model.PyVal
 import OrsoVerif.Model.Validate
 import OrsoVerif.Model.Family
+import OrsoVerif.Model.RowClass
 /-! Driver glue for C05. -/
 namespace Drv.C05
 open Validate
@@ -60,6 +61,21 @@ def decodeFOp : PyVal → Option Family.FOp
   | .list [.str "pick", .int i, .str m, .list idxs] => (decodeNats idxs).map fun l => .derive i.toNat (.pick m l)
   | .list [.str "concat", .int i, .int j] => some (.derive i.toNat (.concat j.toNat))
   | _ => none
+
+def decodeWho : PyVal → Option RowClass.Who
+  | .str "reader" => some .reader
+  | .str "frame" => some .frame
+  | .bool b => some (.direct b)
+  | _ => none
+
+/-- an operation of a process: another feature asking for a row class, the (root) frame being created, or a family operation -/
+def decodePOp (rows : List (List Value)) : PyVal → Option RowClass.POp
+  | .list [.str "feature", .list ns, w] => do
+    let ns ← decodeStrs ns
+    let w ← decodeWho w
+    pure (.feature ns w)
+  | .list [.str "frame", .bool arrow] => some (.frame arrow rows)
+  | v => (decodeFOp v).map .fop
 
 def decodeRows (rows : List PyVal) : Option (List (List Value)) :=
   rows.mapM fun r => match r with
@@ -128,6 +144,18 @@ def handle (op : String) (args : List PyVal) : Option (List PyVal) :=
     let st0 : Family.St := ⟨[rows], [0]⟩
     pure [.list ((Family.runH s st0 ops).view.map encodeRows), .list ((Family.resultsH s st0 ops).map encodeResult),
           .list ((Family.runR s [rows] ops).map encodeRows)]
+  | "dictframe", [.list keys, .list rows, .list recs] => do
+    let keys ← decodeStrs keys
+    let rows ← decodeRows rows
+    let recs ← recs.mapM decodeAppendK
+    pure [encodeRows (RowClass.appendsD keys rows recs), .list ((RowClass.appendResultsD keys rows recs).map encodeResult)]
+  | "process", [.list cols, .list rows, .list ops] => do
+    let s ← cols.mapM decodeCol
+    let rows ← decodeRows rows
+    let ops ← ops.mapM (decodePOp rows)
+    let st0 : RowClass.PSt := ⟨[], []⟩
+    pure [.list ((RowClass.runP RowClass.genCfg s st0 ops).regs.map encodeRows),
+          .list ((RowClass.resultsP RowClass.genCfg s st0 ops).map encodeResult)]
   | "session", [.list cols, .list ops] => do
     let s ← cols.mapM decodeCol
     let ops ← ops.mapM decodeOp
